@@ -249,6 +249,7 @@ void cpc_compressor<A>::uncompress_hybrid_flavor(const compressed_state<A>& sour
     const uint8_t col = row_col & 63;
     if (col < 8) {
       const uint32_t row = row_col >> 6;
+      if (row >= k) throw std::out_of_range("row index out of range");
       target.window[row] |= 1 << col; // set the window bit
     } else {
       pairs[next_true_pair++] = row_col; // move true pair down
